@@ -1,6 +1,6 @@
 SPECIFICATION FairSpec
 CONSTANTS
-  NCalls = 25
+  NCalls = 27
   MaxLen = 2
 PROPERTY HistoryDone
 PROPERTY ModesEventuallyRestored
